@@ -15,8 +15,11 @@ MANIFEST = {
             '(exponent triple, integer numerator/denominator reduced by the gcd loop of __init__, explicit power of pi): '
             'canonical form, commutativity, associativity, (a*b)/b = a, a/a = 1, power laws, sqrt(a*a) = a, exact '
             'conversion and its round trip, into_units/from_units mutually inverse on values and derivatives over Q*pi^k, '
-            'set/remove units leaves stored values alone, and the units rule of every object operation (match required / '
-            'exponents combine / angle or pure number required). Tied to /repo on every run: the same operands go to the '
+            'set/remove units leaves stored values alone, unit changes reach the cached derivative-free view after histories '
+            'of any length, the units rule of every object operation (match required / exponents combine / angle or pure '
+            'number required), the rule that a result\'s derivative carries result units / denominator units (x / ** sqrt '
+            'norm reciprocal), and printability: with the module tables intact str(u) succeeds for every exponent and factor '
+            'triple and every name the name algebra can produce (create_name / name_to_str modelled, dictionary -> string). Tied to /repo on every run: the same operands go to the '
             'real code and to the compiled model (all pairs of the named units, generated products/quotients/powers with '
             'exponents -3..3, every unit-aware operation on every class), canonical outputs are diffed, and an independent '
             'fractions.Fraction reference with an explicit pi exponent judges every result, its printability and the '
@@ -44,8 +47,12 @@ ASSUMPTIONS = ['numerators and denominators are positive integers (the construct
                'coefficients); float triples are outside the exact model (answer "inexact")',
                'the float tests `factor == 1.` of into_units/from_units are read exactly (numer == denom and pi exponent 0)',
                '"mutually inverse" is proved exactly in the model and compared within 4 ulp on the code (DESIGN.md §8.4)',
-               'Scalar ** p for p neither integer nor half-integer and Scalar.log of a quantity with units are not '
-               'specified by the property: modelled as the code behaves, not judged by the oracle']
+               'printing: the registry tables are a parameter of the theorem (stdReg = the module tables); the digits of a '
+               'float coefficient and the string parser name_to_dict are not modelled',
+               'Scalar ** p for p neither integer nor half-integer is specified only for pure numbers (accepted); '
+               'Scalar.log of a distance/time is judged a defect (KF-C12-1, recorded, model faithful)',
+               'the history model is purely functional: sharing of caches between an object and its clone/copy is tied '
+               'by execution only']
 TRUSTED_EXTRA = ['math.isqrt (CPython) returns the floor of the exact square root (modelled by Nat.sqrt)',
                  'independent table of the physical definitions of the named units (harness/c12_ref.py)']
 
